@@ -59,6 +59,9 @@ inductive Step (Val : Type)
   | prim (op : String) (args : List Nat)  -- any `@eager_propagate` primitive
   | copy (r : Nat)                        -- `_CoreArray.copy`
   | set (dst src : Nat)                   -- `_CoreArray._set` (behind `__setitem__`)
+  /-- A Python-level *value-dependent shortcut* (`where`, `logical_and/or`, …): when operand `g` holds data `v` and
+  `choice v = some k`, the call hands back a copy of operand `k` instead of emitting `op`. -/
+  | guarded (op : String) (args : List Nat) (g : Nat) (choice : Val → Option Nat)
 
 def allEager (h : Heap Val) : List Nat → Option (List Val)
   | [] => some []
@@ -68,8 +71,22 @@ def varsOf (h : Heap Val) : List Nat → Option (List (Expr Val))
   | [] => some []
   | r :: rs => (h[r]?).bind (fun c => (varsOf h rs).bind (fun es => some (c.var :: es)))
 
+/-- What a shortcut call does in state `h`: the copy when the guard operand holds data satisfying the guard (and every
+operand exists), the primitive otherwise.  Every other step is itself. -/
+def resolve (h : Heap Val) : Step Val → Step Val
+  | .guarded op args g choice =>
+      match varsOf h args, args[g]? with
+      | some _, some rg =>
+          (match (h[rg]?).bind (·.eager) with
+           | some v => (match (choice v).bind (fun k => args[k]?) with
+                        | some rp => .copy rp
+                        | none => .prim op args)
+           | none => .prim op args)
+      | _, _ => .prim op args
+  | s => s
+
 /-- The `@eager_propagate` wrapper and the other transitions.  `none` = a Python exception. -/
-def step (sem : String → List Val → Option Val) (ort : Bool) (h : Heap Val) : Step Val → Option (Heap Val)
+def stepBase (sem : String → List Val → Option Val) (ort : Bool) (h : Heap Val) : Step Val → Option (Heap Val)
   | .data v => some (h ++ [⟨.const v, some v⟩])
   | .placeholder n => some (h ++ [⟨.input n, none⟩])
   | .prim op args =>
@@ -82,6 +99,11 @@ def step (sem : String → List Val → Option Val) (ort : Bool) (h : Heap Val) 
         some (h ++ [match c.eager with | some v => ⟨.const v, some v⟩ | none => ⟨c.var, none⟩]))
   | .set dst src =>
       (h[src]?).bind (fun c => if dst < h.length then some (h.set dst ⟨c.var, c.eager⟩) else none)
+  | .guarded _ _ _ _ => none      -- resolved before it gets here
+
+/-- One transition: shortcuts are resolved against the current state first. -/
+def step (sem : String → List Val → Option Val) (ort : Bool) (h : Heap Val) (s : Step Val) : Option (Heap Val) :=
+  stepBase sem ort h (resolve h s)
 
 def run (sem : String → List Val → Option Val) (ort : Bool) : List (Step Val) → Heap Val → Option (Heap Val)
   | [], h => some h
@@ -94,12 +116,14 @@ inductive PStep (Val : Type)
   | prim (op : String) (args : List Nat)
   | copy (r : Nat)
   | set (dst src : Nat)
+  | guarded (op : String) (args : List Nat) (g : Nat) (choice : Val → Option Nat)
 
 def PStep.toStep (lz : String → Bool) : PStep Val → Step Val
   | .input n v => if lz n then .placeholder n else .data v
   | .prim op args => .prim op args
   | .copy r => .copy r
   | .set d s => .set d s
+  | .guarded op args g choice => .guarded op args g choice
 
 /-- Run a program with the inputs selected by `lz` as placeholders. -/
 def runProg (sem : String → List Val → Option Val) (ort : Bool) (lz : String → Bool)
